@@ -35,7 +35,7 @@ RULE = ("Metamorphic relations between the results (AST, pickles, errors) of a d
         "identical lines.  Distinct = (document hash, transformation, position).")
 ASSUMPTIONS = ["domain: documents whose CR occur only in CRLF pairs; file loading skipped for texts that cannot be encoded as UTF-8",
                "kinds of lines are those the original parse delivered to the builder (recorded by the build probe); lines that were reported as errors or never reached are not transformed"]
-DECIDING = ["pairs_compared", "edge_documents", "long_line_documents", "rel.crlf", "rel.file", "rel.trailing", "rel.indent", "rel.blank", "rel.comment", "rel.final_newline"]
+DECIDING = ["pairs_compared", "locale_documents", "edge_documents", "long_line_documents", "rel.crlf", "rel.file", "rel.trailing", "rel.indent", "rel.blank", "rel.comment", "rel.final_newline"]
 KW = {"FeatureLine", "RuleLine", "BackgroundLine", "ScenarioLine", "ExamplesLine", "StepLine", "TagLine", "TableRow", "DocStringSeparator"}
 COMMENT = "   #inserted comment \U0001F600"
 
@@ -350,11 +350,74 @@ def plan(tier, seed):
     lengths = list(range(1, 201)) + [255, 256, 257, 511, 512, 513, 1023, 1024, 1025]
     for k in range(0, len(lengths), 14):
         specs.append({"family": "long_lines", "lengths": lengths[k:k + 14], "seed": seed, "n": 14, "budget": b})
+    specs.append({"family": "locale", "seed": seed, "n": 1})
     from .. import dialects as _dl
     names = sorted(_dl.master())
     for k in range(0, 80, 10):
         specs.append({"family": "keyword_tails", "dialects": names[k:k + 10], "seed": seed, "n": 10, "budget": b})
     return specs
+
+
+LOCALE_WORKER = """
+import json, sys
+sys.path.insert(0, sys.argv[1])
+from gherkin.parser import Parser
+from gherkin.token_scanner import TokenScanner
+from gherkin.errors import ParserError, CompositeParserException
+out = []
+for p in sys.argv[2:]:
+    try:
+        out.append(["ok", Parser().parse(TokenScanner(p))])
+    except CompositeParserException as e:
+        out.append(["err", [str(x) for x in e.errors]])
+    except ParserError as e:
+        out.append(["err", [str(e)]])
+    except Exception as e:
+        out.append(["crash", repr(e)[:200]])
+sys.stdout.write(json.dumps(out))
+"""
+
+
+def run_locale(spec, M):
+    """Loading a document from a file gives what the string gives — also in a process whose locale is not UTF-8 (C locale,
+    UTF-8 mode off): the file's encoding is UTF-8 whatever the locale says."""
+    import json
+    import subprocess
+    import sys
+    from ..common import PY_ROOT
+    r = rng(spec["seed"], ID, "locale")
+    texts = ["# language: fr\nFonctionnalité: été\n  Scénario: ça\n    Étant donné que l'élève\n",
+             "# language: ru\nФункция: ф\n  Сценарий: с\n    Допустим ж\n", "# language: ja\n機能: 漢\n  シナリオ: し\n    前提 あ\n",
+             "Feature: \U0001F600\n  Scenario: \u00e9\n    Given \u2028 x\n      | \u00df |\n", "Feature: f\n  Sc\u00e9nario: not a keyword here\n  junk \u00e9\n"]
+    texts += [docmodel.render(r, size="small", nl="\n").text for _ in range(8)]
+    texts = [t for t in texts if observe.file_loadable(t) and not t.isascii()]
+    paths = []
+    for k, t in enumerate(texts):
+        p = os.path.abspath("c16-locale-%d.feature" % k)
+        with open(p, "wb") as fh:
+            fh.write(t.encode("utf8"))
+        paths.append(p)
+    env = {k: v for k, v in os.environ.items() if k not in ("PYTHONIOENCODING", "PYTHONUTF8", "LC_ALL", "LANG", "LC_CTYPE", "PYTHONCOERCECLOCALE", "PYTHONPATH")}
+    env.update(LC_ALL="C", PYTHONUTF8="0", PYTHONCOERCECLOCALE="0", PYTHONDONTWRITEBYTECODE="1")
+    try:
+        pr = subprocess.run([sys.executable, "-B", "-c", LOCALE_WORKER, PY_ROOT] + paths, capture_output=True, env=env, timeout=300)
+        if pr.returncode != 0:
+            M.inconc("locale worker failed: %s" % pr.stderr.decode("ascii", "replace")[-300:])
+            return
+        res = json.loads(pr.stdout.decode("ascii"))
+    finally:
+        for p in paths:
+            os.remove(p)
+    for t, (st, val) in zip(texts, res):
+        base = run(t)
+        M.case(h64(["locale", t]))
+        M.count("rel.file")
+        M.count("locale_documents")
+        M.count("pairs_compared")
+        want = ["ok", json.loads(json.dumps({k: v for k, v in base[1].items() if k != "uri"}))] if base[0] == "ok" else ["err", [e["m"] for e in base[1]]]
+        if [st, val] != want:
+            M.violation("C16.file", {"what": "a document loaded from a file in a process with the C locale (UTF-8 mode off) differs from the same text given as a string",
+                                     "file": short([st, val], 240), "string": short(want, 240), "relation": "file"}, {"kind": "text", "family": "locale", "text": t, "relation": "file"})
 
 
 def keyword_tail_documents(d):
@@ -450,7 +513,8 @@ def check_long_line(what, lf, line_no, kind, M, case):
     viol = lambda rel, detail: M.violation("C16." + rel, dict(detail, relation=rel, line_kind=kind), dict(case, relation=rel, text=lf),
                                            mechanism=f2_mechanism(lf, base) if rel == "trailing" else None)
     for k in (1, 2, 3, 4):
-        for blanks in (" " * k, "\t" * k):
+        # blanks of every sort the library itself trims (space, tab, and for k <= 2 no-break, em, ideographic blank, form feed)
+        for blanks in (" " * k, "\t" * k) + ((("\u00a0" * k, "\u2003" * k, "\u3000" * k, " \x0c" * k, "\u00a0 \t"[:k + 1])) if k <= 2 else ()):
             L2 = list(lines)
             L2[line_no - 1] += blanks
             for nl in ("\n", "\r\n"):
@@ -482,6 +546,8 @@ def run_shard(spec, M):
                 M.count("skipped_lone_cr")
                 continue
             check_document(src.replace("\r\n", "\n"), M, {"kind": "text", "family": "corpus", "path": g["path"]}, budget=spec.get("budget", 400))
+    elif fam == "locale":
+        run_locale(spec, M)
     elif fam == "keyword_tails":
         for d in spec["dialects"]:
             for long_k, lf, line_no in keyword_tail_documents(d):
